@@ -15,6 +15,22 @@ func reg(id, engine, doc string, floor int, run func(c *an.Ctx)) {
 	an.Register(&an.Rule{ID: id, Prop: id[:strings.Index(id, ".")], Engine: engine, Doc: doc, Floor: floor, Run: run})
 }
 
+func init() {
+	an.ExtraNonNil = func(v ssa.Value) bool {
+		switch x := v.(type) {
+		case *ssa.UnOp:
+			if g, ok := x.X.(*ssa.Global); ok && x.Op == token.MUL && sentinelError(g) {
+				return true
+			}
+		case *ssa.Call:
+			if f := an.StaticCallee(x); f != nil && f.Pkg != nil && f.Pkg.Pkg.Path() == an.ModPath+"/internal/protocol" {
+				return f.Name() == "NewFatalClientErr" || f.Name() == "NewClientErr"
+			}
+		}
+		return false
+	}
+}
+
 func regSweep(id, engine, doc string, floor int, run func(c *an.Ctx)) {
 	an.Register(&an.Rule{ID: id, Prop: id[:strings.Index(id, ".")], Engine: engine, Doc: doc, Floor: floor, Run: run, Sweep: true})
 }
